@@ -2,7 +2,7 @@ import Juniper.Model.BTree
 import Juniper.Generated.TreeAccess
 set_option linter.unusedVariables false
 /-!
-# Memory-access model of `btree.Get` / `Contains` / `Put` / an iterator step (C01, concurrent clause)
+# Memory-access model of `btree.Get` / `Contains` / `Put` / `Range` / `RangeReverse` / `Iterate` (C01, concurrent clause)
 
 `Model/BTree.lean` is a functional model: an operation maps a tree to a tree, so it cannot exhibit a
 data race. This file refines the three operations that the last sentence of C01 talks about
@@ -19,8 +19,10 @@ accesses**, and gives them an **interleaving semantics**.
   state only); `next` performs it on the current memory (the value read decides where the goroutine
   goes). The comparisons are `searchNode`'s generated `searchLess` / `searchEq`; the descent is the one
   of `lookup` / `ins`.
-* The statement lists of `Put`, `Get`, `Contains`, `searchNode`, `insertIntoLeaf`,
-  `forwardIterator.Next`, `cursor.lost`, `cursor.valueUnchecked` are **generated**
+* The statement lists of `Put`, `Get`, `Contains`, `searchNode`, `insertIntoLeaf`, and — for the range
+  readers — of `forwardIterator.Next`, `backwardIterator.Next`, `cursor.lost`, `valueUnchecked`, `Key`,
+  `cursor.Next`, `Prev`, `seek`, `find`, the six `Seek*`, `leftmostLeaf`, `rightmostLeaf`, `node.leaf`,
+  `btree.Cursor` are **generated**
   (`Juniper.Gen.TreeAccess`, re-extracted on every run). The control skeleton the machine implements is
   compared with them literally (`…Shape`); the straight-line parts — what `Put` does *before* its loop,
   what it does in the *overwrite branch* (`for[0]/if[0].body`), and what follows the insertion — are
@@ -33,9 +35,17 @@ accesses**, and gives them an **interleaving semantics**.
   the same location, at least one writing (there is no synchronisation in this API, so
   happens-before is program order and "both enabled in one configuration" is exactly "unordered").
 
+* A **range reader** (`Op.scan`: `Range` / `RangeReverse` / `Iterate`, then up to `limit` calls of `Next`)
+  is modelled access by access as well: the seek (`find` with `searchNode`, `leftmostLeaf` /
+  `rightmostLeaf`, `c.k = c.curr.keys[c.i]`, `c.gen = c.t.gen`, the comparison that decides whether the
+  seek steps once), and per `Next`: `lost()` (reads `gen`), the in-range test on the remembered key
+  (private), **only then** the value read `values[c.i]`, then the cursor move `cursor.Next` / `Prev`
+  (`lost()`, `leaf()`, `n`, `keys[i]`, child pointers, and on the way up `parent` three times and the
+  `children` of the parent scanned by `xslices.Index`).
+
 What is *not* modelled (explicit outcome `Res.unmodelled`, never reached in the theorems): a `Put`
-that has to split a full leaf (`overfill`), the re-seek of a lost iterator, and the cursor move at the
-end of an iterator step (it reads `gen`, `n`, keys, child and parent pointers only).
+that has to split a full leaf (`overfill`), and the re-seek of a lost cursor (the generation differs from
+the one the cursor saw: impossible while only present keys are `Put`).
 -/
 namespace Juniper.Model.BTreeAccess
 open Juniper.Gen.Tree Juniper.Gen.TreeAccess Juniper.Model.BTree
@@ -47,6 +57,7 @@ inductive Field where
   | key (i : Nat)
   | val (i : Nat)
   | child (i : Nat)
+  | parent
   deriving DecidableEq, Repr
 
 inductive Loc where
@@ -76,6 +87,8 @@ structure Mem (K V : Type) where
   key : Nat → Nat → Option K
   val : Nat → Nat → Option V
   child : Nat → Nat → Option Nat
+  /-- the `parent` pointers (read by the cursor moves only; no operation modelled here writes them) -/
+  parent : Nat → Option Nat := fun _ => none
 
 variable {K V : Type}
 
@@ -101,7 +114,8 @@ def storeNode : Node K V → Mem K V → Mem K V
         n := fun b => if b = id then (kvs.length : Int) else m.n b
         key := fun b j => if b = id then (kvs[j]?).map (·.1) else m.key b j
         val := fun b j => if b = id then (kvs[j]?).map (·.2) else m.val b j
-        child := fun b j => if b = id then (kids[j]?).map Node.id else m.child b j }
+        child := fun b j => if b = id then (kids[j]?).map Node.id else m.child b j
+        parent := fun b => if kids.any (fun c => c.id == b) then some id else m.parent b }
 def storeKids : List (Node K V) → Mem K V → Mem K V
   | [], m => m
   | c :: cs, m => storeKids cs (storeNode c m)
@@ -216,14 +230,51 @@ def insertShape : Bool :=
   insertIntoLeafStmts == ["idx := 0", "for idx < int(x.n) {", "if t.compare(k, x.keys[idx]) < 0 {", "break", "}",
     "idx++", "}", "insertOne(x.keys[:int(x.n)+1], idx, k)", "insertOne(x.values[:int(x.n)+1], idx, v)", "x.n++"]
 
-/-- the iterator step: `lost()` (reads `gen`; only if it differs `curr.n`, then `keys[i]`), then the
-value read, then the cursor move -/
-def iterShape : Bool :=
-  fwdNextStmts == ["if iter.c.lost() {", "iter.c.SeekFirstGreaterOrEqual(iter.c.Key())", "}", "if iter.c.curr == nil {",
-    "var zero KVPair[K, V]", "return zero, false", "}", "k := iter.c.Key()", "v := iter.c.valueUnchecked()",
-    "iter.c.Next()", "return KVPair[K, V]{k, v}, true"] &&
+/-- the range readers: every function on their path has the statement list the machine `itNext` below
+implements (compared literally; a mismatch makes the operation start in `done unmodelled`) -/
+def scanShape : Bool :=
+  fwdNextStmts == ["var zero KVPair[K, V]", "if iter.done {", "return zero, false", "}", "if iter.c.lost() {",
+    "iter.c.SeekFirstGreaterOrEqual(iter.c.Key())", "}", "if iter.c.curr == nil {", "return zero, false", "}",
+    "k := iter.c.Key()", "if iter.inRange != nil && !iter.inRange(k) {", "iter.done = true", "return zero, false", "}",
+    "v := iter.c.valueUnchecked()", "iter.c.Next()", "return KVPair[K, V]{k, v}, true"] &&
+  bwdNextStmts == ["var zero KVPair[K, V]", "if iter.done {", "return zero, false", "}", "if iter.c.lost() {",
+    "iter.c.SeekLastLessOrEqual(iter.c.Key())", "}", "if iter.c.curr == nil {", "return zero, false", "}",
+    "k := iter.c.Key()", "if iter.inRange != nil && !iter.inRange(k) {", "iter.done = true", "return zero, false", "}",
+    "v := iter.c.valueUnchecked()", "iter.c.Prev()", "return KVPair[K, V]{k, v}, true"] &&
   lostStmts == ["return c.gen != c.t.gen && c.curr != nil && (c.i >= int(c.curr.n) || c.t.compare(c.k, c.curr.keys[c.i]) != 0)"] &&
-  valueUncheckedStmts == ["return c.curr.values[c.i]"]
+  valueUncheckedStmts == ["return c.curr.values[c.i]"] &&
+  cursorKeyStmts == ["return c.k"] &&
+  cursorNextStmts == ["if c.lost() {", "c.SeekFirstGreater(c.k)", "return", "}", "if c.curr == nil {", "return", "}",
+    "if c.curr.leaf() {", "c.i++", "if c.i < int(c.curr.n) {", "c.k = c.curr.keys[c.i]", "return", "}", "} else {",
+    "if c.i < int(c.curr.n) {", "c.curr = leftmostLeaf(c.curr.children[c.i+1])", "c.i = 0", "c.k = c.curr.keys[c.i]", "return",
+    "}", "}", "for {", "if c.curr.parent == nil {", "c.curr = nil", "return", "}",
+    "idx := xslices.Index(c.curr.parent.children[:], c.curr)", "c.curr = c.curr.parent", "c.i = idx",
+    "if c.i < int(c.curr.n) {", "c.k = c.curr.keys[c.i]", "break", "}", "}"] &&
+  cursorPrevStmts == ["if c.lost() {", "c.SeekLastLess(c.k)", "return", "}", "if c.curr == nil {", "return", "}",
+    "if c.curr.leaf() {", "c.i--", "if c.i >= 0 {", "c.k = c.curr.keys[c.i]", "return", "}", "} else {",
+    "if c.i >= 0 {", "c.curr = rightmostLeaf(c.curr.children[c.i])", "c.i = int(c.curr.n) - 1", "c.k = c.curr.keys[c.i]", "return",
+    "}", "}", "for {", "if c.curr.parent == nil {", "c.curr = nil", "return", "}",
+    "idx := xslices.Index(c.curr.parent.children[:], c.curr)", "c.curr = c.curr.parent", "c.i = idx - 1",
+    "if c.i >= 0 {", "c.k = c.curr.keys[c.i]", "break", "}", "}"] &&
+  seekStmts == ["c.curr, c.i, _ = c.find(k)", "if c.curr == nil {", "return false", "}", "c.k = c.curr.keys[c.i]",
+    "c.gen = c.t.gen", "return true"] &&
+  findStmts == ["if c.t.root.n == 0 {", "return nil, 0, false", "}", "curr := c.t.root", "for {",
+    "idx, inNode := c.t.searchNode(k, curr)", "if inNode {", "return curr, idx, true", "}", "if curr.leaf() {",
+    "if idx == int(curr.n) {", "idx--", "}", "return curr, idx, false", "}", "curr = curr.children[idx]", "}"] &&
+  seekFirstStmts == ["if c.t.root.n == 0 {", "c.curr = nil", "return", "}", "c.curr = leftmostLeaf(c.t.root)", "c.i = 0",
+    "c.k = c.curr.keys[c.i]", "c.gen = c.t.gen"] &&
+  seekLastStmts == ["if c.t.root.n == 0 {", "c.curr = nil", "return", "}", "c.curr = rightmostLeaf(c.t.root)",
+    "c.i = int(c.curr.n) - 1", "c.k = c.curr.keys[c.i]", "c.gen = c.t.gen"] &&
+  seekGEStmts == ["if !c.seek(k) {", "return", "}", "if c.t.compare(k, c.k) > 0 {", "c.Next()", "}"] &&
+  seekGTStmts == ["if !c.seek(k) {", "return", "}", "if c.t.compare(k, c.k) >= 0 {", "c.Next()", "}"] &&
+  seekLEStmts == ["if !c.seek(k) {", "return", "}", "if c.t.compare(k, c.k) < 0 {", "c.Prev()", "}"] &&
+  seekLTStmts == ["if !c.seek(k) {", "return", "}", "if c.t.compare(k, c.k) <= 0 {", "c.Prev()", "}"] &&
+  leftmostLeafStmts == ["curr := x", "for {", "if curr.leaf() {", "return curr", "}", "curr = curr.children[0]", "}"] &&
+  rightmostLeafStmts == ["curr := x", "for {", "if curr.leaf() {", "return curr", "}", "curr = curr.children[int(curr.n)]", "}"] &&
+  leafStmts == ["return x.children[0] == nil"] &&
+  cursorCtorStmts == ["c := cursor[K, V]{t: t}", "return c"] &&
+  indexStmts == ["return slices.Index(s, x)"] &&
+  searchShape && iterCtorsFresh && iterStopBeforeValue
 
 /-! ## operations and private state -/
 
@@ -231,15 +282,40 @@ inductive Op (K V : Type) where
   | get (k : K)
   | contains (k : K)
   | put (k : K) (v : V)
-  /-- one `forwardIterator.Next` of a cursor parked at slot `i` of node `x`, with the cursor's
-  generation `cgen` and expected key `ck` -/
-  | iter (x i : Nat) (cgen : Int) (ck : K)
+  /-- a range reader: `Range` (`fwd`) / `RangeReverse` — the cursor seek `sk` with key `skey` (the first
+  `switch`), the in-range predicate `compare(k, key) op 0` or none (the second `switch`) — followed by
+  up to `limit` calls of `Next` (the reader may abandon the iterator early; it stops at the first
+  `false`). `Iterate` is `Range(Unbounded, Unbounded)` = `scan true .first _ none`. -/
+  | scan (fwd : Bool) (sk : SeekKind) (skey : K) (stop : Option (CmpOp × K)) (limit : Nat)
 
+/-- the key a search operation looks for (for a range reader: the seek key) -/
 def Op.key : Op K V → K
   | .get k => k
   | .contains k => k
   | .put k _ => k
-  | .iter _ _ _ ck => ck
+  | .scan _ _ skey _ _ => skey
+
+/-- `Range(lo, hi)` (`rev = false`) / `RangeReverse(lo, hi)` as a reader operation, through the two regenerated
+`switch` tables (as `Model.BTree.mkIter`); `none` = the code panics ("unknown bound") -/
+def scanOf (rev : Bool) (lo hi : Bound K) (limit : Nat) : Option (Op K V) :=
+  let seekTbl := if rev then rrangeSeek else rangeSeek
+  let stopTbl := if rev then rrangeStop else rangeStop
+  match (pickSide seekTbl.1 lo hi).kind with
+  | none => none
+  | some bk =>
+    match seekTbl.2.find? (fun r => r.1 == bk) with
+    | none => none
+    | some (_, sk, arg) =>
+      let key := match arg with
+        | some s => (pickSide s lo hi).key
+        | none => lo.key
+      match (pickSide stopTbl.1 lo hi).kind with
+      | none => none
+      | some bk2 =>
+        match stopTbl.2.find? (fun r => r.1 == bk2) with
+        | none => none
+        | some (_, .all fwd) => some (.scan fwd sk key none limit)
+        | some (_, .while fwd op s) => some (.scan fwd sk key (some (op, (pickSide s lo hi).key)) limit)
 
 def Op.isPut : Op K V → Bool
   | .put _ _ => true
@@ -250,6 +326,8 @@ inductive Res (V : Type) where
   | val (v : Option V)
   | bool (b : Bool)
   | unit
+  /-- a range reader is through: the values it was handed, in order -/
+  | vals (l : List (Option V))
   /-- nil dereference / index out of range in the Go code -/
   | crash
   /-- left the modelled fragment -/
@@ -266,6 +344,70 @@ structure Regs (K V : Type) where
   deriving Repr
 
 def Regs.init : Regs K V := { curr := none, idx := 0, ti := 0, tk := none, tv := none }
+
+inductive Mode where
+  | seek | step | iter
+  deriving DecidableEq, Repr
+
+/-- the private fields of a range reader: the cursor (`curr`, `i`, `k`, `gen`), how many `Next` calls the
+reader still makes, and what it has been handed so far -/
+structure ItSt (K V : Type) where
+  curr : Option Nat
+  i : Int
+  k : Option K
+  cgen : Int
+  /-- where the reader is: inside `seek`/`SeekFirst`/`SeekLast` (before `c.gen = c.t.gen`), inside the one
+  `c.Next()`/`c.Prev()` a `Seek*` may end with, or iterating -/
+  mode : Mode
+  left : Nat
+  out : List (K × Option V)
+  deriving Repr
+
+def ItSt.init (limit : Nat) : ItSt K V :=
+  { curr := none, i := 0, k := none, cgen := 0, mode := .seek, left := limit, out := [] }
+
+/-- program points of a range reader; each is ONE shared-memory read -/
+inductive Ph where
+  /-- `c.t.root.n == 0` (of `find` / `SeekFirst` / `SeekLast`): `c.t.root` -/
+  | sRoot1
+  /-- … `.n` -/
+  | sRootN (r : Nat)
+  /-- `curr := c.t.root` / `leftmostLeaf(c.t.root)` / `rightmostLeaf(c.t.root)`: `c.t.root` again -/
+  | sRoot2
+  /-- `find`: `searchNode`'s loop test, comparison, `return int(x.n), false` -/
+  | ftest (x i : Nat) | fkey (x i : Nat) | fretn (x : Nat)
+  /-- `find`: `curr.leaf()`; `idx == int(curr.n)`; `curr = curr.children[idx]` -/
+  | fleaf (x idx : Nat) | fn (x idx : Nat) | fchild (x idx : Nat)
+  /-- `c.k = c.curr.keys[c.i]` with `c.curr = x`, `c.i = i` -/
+  | rdK (x : Nat) (i : Int)
+  /-- `c.gen = c.t.gen` -/
+  | sgen
+  /-- `leftmostLeaf`: `curr.leaf()`; `curr = curr.children[0]` -/
+  | dl (x : Nat) | dl2 (x : Nat)
+  /-- `rightmostLeaf`: `curr.leaf()`; `int(curr.n)`; `curr = curr.children[…]` -/
+  | dr (x : Nat) | drn (x : Nat) | drc (x : Nat) (n : Int)
+  /-- `c.i = int(c.curr.n) - 1` -/
+  | lastN (x : Nat)
+  /-- `cursor.Next` / `Prev`: `lost()` reads `gen` -/
+  | mGen
+  /-- `c.curr.leaf()` -/
+  | mLeaf (x : Nat)
+  /-- leaf, forward: `c.i < int(c.curr.n)` after `c.i++` -/
+  | mN (x : Nat) (i : Int)
+  /-- inner node, forward: `c.i < int(c.curr.n)` -/
+  | mIN (x : Nat)
+  /-- `c.curr.children[j]` (forward `c.i+1`, backward `c.i`) -/
+  | mCh (x : Nat) (j : Int)
+  /-- the climb: `c.curr.parent == nil`; `c.curr.parent` (argument of `Index`); `children[j]` of the parent
+  compared with `c.curr`; `c.curr = c.curr.parent`; forward `c.i < int(c.curr.n)` -/
+  | cPar (x : Nat) | cPar2 (x : Nat) | cIdx (x p j : Nat) | cPar3 (x : Nat) (idx : Int) | cN (p : Nat) (i : Int)
+  /-- iterator `Next`: `lost()` reads `gen` -/
+  | nGen
+  /-- iterator `Next`: `valueUnchecked()` -/
+  | nVal
+  /-- the reader is through -/
+  | fin
+  deriving DecidableEq, Repr
 
 inductive PC (K V : Type) where
   /-- executing a straight-line list of micro-operations; afterwards (`cont`) enter the descent at
@@ -287,26 +429,21 @@ inductive PC (K V : Type) where
   | itest (x j : Nat)
   /-- `insertIntoLeaf`: comparison -/
   | ikey (x j : Nat)
-  /-- `lost()`: `c.gen != c.t.gen` -/
-  | lostGen (x i : Nat)
-  /-- `lost()`: `c.i >= int(c.curr.n)` -/
-  | lostN (x i : Nat)
-  /-- `lost()`: `compare(c.k, c.curr.keys[c.i]) != 0` -/
-  | lostKey (x i : Nat)
-  /-- `valueUnchecked()` -/
-  | itVal (x i : Nat)
+  /-- a range reader at program point `ph` with the cursor / iterator fields `st` -/
+  | it (ph : Ph) (st : ItSt K V)
   | done (r : Res V)
   deriving Repr
 
 def PC.isDone : PC K V → Bool
   | .done _ => true
+  | .it .fin _ => true
   | _ => false
 
 def planOf : Op K V → Option Plan
   | .get _ => getPlan
   | .contains _ => containsPlan
   | .put _ _ => putPlan
-  | .iter _ _ _ _ => none
+  | .scan _ _ _ _ _ => none
 
 /-- what the loop does when `curr` is nil -/
 def nilRes : Op K V → Res V
@@ -334,7 +471,7 @@ def retRes : Ret → Res V
 /-- the first state of an operation -/
 def start (op : Op K V) : PC K V :=
   match op with
-  | .iter x i _ _ => if iterShape then .lostGen x i else .done .unmodelled
+  | .scan _ _ _ _ limit => if scanShape then .it .sRoot1 (ItSt.init limit) else .done .unmodelled
   | _ =>
     match planOf op with
     | none => .done .unmodelled
@@ -396,6 +533,43 @@ def mopAccess (rg : Regs K V) : MOp → Option Access
       | .wrN => wr (.node x .n)
       | _ => none
 
+/-- the read a range reader performs at program point `ph` -/
+def itAccess (ph : Ph) (st : ItSt K V) : Option Access :=
+  match ph with
+  | .sRoot1 => rd .root
+  | .sRootN r => rd (.node r .n)
+  | .sRoot2 => rd .root
+  | .ftest x _ => rd (.node x .n)
+  | .fkey x i => rd (.node x (.key i))
+  | .fretn x => rd (.node x .n)
+  | .fleaf x _ => rd (.node x (.child 0))
+  | .fn x _ => rd (.node x .n)
+  | .fchild x idx => rd (.node x (.child idx))
+  | .rdK x i => rd (.node x (.key i.toNat))
+  | .sgen => rd .gen
+  | .dl x => rd (.node x (.child 0))
+  | .dl2 x => rd (.node x (.child 0))
+  | .dr x => rd (.node x (.child 0))
+  | .drn x => rd (.node x .n)
+  | .drc x n => rd (.node x (.child n.toNat))
+  | .lastN x => rd (.node x .n)
+  | .mGen => rd .gen
+  | .mLeaf x => rd (.node x (.child 0))
+  | .mN x _ => rd (.node x .n)
+  | .mIN x => rd (.node x .n)
+  | .mCh x j => rd (.node x (.child j.toNat))
+  | .cPar x => rd (.node x .parent)
+  | .cPar2 x => rd (.node x .parent)
+  | .cIdx _ p j => rd (.node p (.child j))
+  | .cPar3 x _ => rd (.node x .parent)
+  | .cN p _ => rd (.node p .n)
+  | .nGen => rd .gen
+  | .nVal =>
+    match st.curr with
+    | some x => rd (.node x (.val st.i.toNat))
+    | none => none
+  | .fin => none
+
 /-- the next shared access of a goroutine: a function of its private state alone -/
 def accessOf : PC K V → Option Access
   | .run (o :: _) _ rg _ => mopAccess rg o
@@ -408,10 +582,7 @@ def accessOf : PC K V → Option Access
   | .full x => rd (.node x .n)
   | .itest x _ => rd (.node x .n)
   | .ikey x j => rd (.node x (.key j))
-  | .lostGen _ _ => rd .gen
-  | .lostN x _ => rd (.node x .n)
-  | .lostKey x i => rd (.node x (.key i))
-  | .itVal x i => rd (.node x (.val i))
+  | .it ph st => itAccess ph st
   | .done _ => none
 
 /-- effect of one micro-operation: new memory, new locals, new result, micro-operations to prepend;
@@ -450,6 +621,177 @@ def mopExec (op : Op K V) (m : Mem K V) (rg : Regs K V) (r : Res V) (o : MOp) :
       | .wrN => some (m.setN x (rg.ti + 1), rg, r, [])
       | _ => none
 
+/-! ## the range reader -/
+
+/-- which way the cursor moves: the `c.Next()` / `c.Prev()` a `Seek*` ends with, then the iterator's direction -/
+def moveFwd (op : Op K V) (st : ItSt K V) : Bool :=
+  match op with
+  | .scan fwd sk _ _ _ =>
+    match st.mode with
+    | .step => (match sk with | .ge => true | .gt => true | .first => true | _ => false)
+    | _ => fwd
+  | _ => true
+
+/-- the in-range predicate of the iterator on a key (`true` if there is none) -/
+def inRangeOf (cmp : K → K → Int) (op : Op K V) (k : K) : Bool :=
+  match op with
+  | .scan _ _ _ (some (o, key)) _ => evalOp o (cmp k key)
+  | _ => true
+
+def hasPred : Op K V → Bool
+  | .scan _ _ _ stop _ => stop.isSome
+  | _ => false
+
+def opFwd : Op K V → Bool
+  | .scan fwd _ _ _ _ => fwd
+  | _ => true
+
+/-- the reader's loop: it calls `Next` again unless it has had its `limit` -/
+def iterTop (st : ItSt K V) : PC K V :=
+  if st.left = 0 then .it .fin st else .it .nGen { st with mode := .iter }
+
+/-- one read of a range reader at program point `ph`, the value read deciding where it goes -/
+def itNext (cmp : K → K → Int) (op : Op K V) (m : Mem K V) (ph : Ph) (st : ItSt K V) : PC K V :=
+  let fwd := moveFwd op st
+  match ph with
+  | .sRoot1 =>
+    match m.root with
+    | some r => .it (.sRootN r) st
+    | none => .done .crash
+  | .sRootN _r =>
+    -- `findEmpty` / `seekFirstEmpty` / `seekLastEmpty`: the three regenerated `root.n == 0` tests
+    let n := m.n _r
+    let empty := match op with
+      | .scan _ .first _ _ _ => seekFirstEmpty n
+      | .scan _ .last _ _ _ => seekLastEmpty n
+      | _ => findEmpty n
+    if empty then iterTop { st with curr := none } else .it .sRoot2 st
+  | .sRoot2 =>
+    match m.root with
+    | none => .done .crash
+    | some r =>
+      match op with
+      | .scan _ .first _ _ _ => .it (.dl r) st
+      | .scan _ .last _ _ _ => .it (.dr r) st
+      | _ => .it (.ftest r 0) st
+  | .ftest x i => if (i : Int) < m.n x then .it (.fkey x i) st else .it (.fretn x) st
+  | .fkey x i =>
+    match m.key x i with
+    | none => .done .crash
+    | some k' =>
+      let c := cmp op.key k'
+      if searchLess c then .it (.fleaf x i) st
+      else if searchEq c then .it (.rdK x i) st
+      else .it (.ftest x (i + 1)) st
+  | .fretn x => .it (.fleaf x (m.n x).toNat) st
+  | .fleaf x idx =>
+    match m.child x 0 with
+    | none => .it (.fn x idx) st
+    | some _ => .it (.fchild x idx) st
+  | .fn x idx =>
+    let idx' : Int := if findBacksUp idx (m.n x) && findBackUpDec then (idx : Int) - 1 else idx
+    .it (.rdK x idx') st
+  | .fchild x idx =>
+    match m.child x idx with
+    | some c => .it (.ftest c 0) st
+    | none => .done .crash
+  | .rdK x i =>
+    if i < 0 then .done .crash else
+    match m.key x i.toNat with
+    | none => .done .crash
+    | some k' =>
+      let st' := { st with curr := some x, i := i, k := some k' }
+      match st.mode with
+      | .seek => .it .sgen st'
+      | _ => iterTop st'
+  | .sgen =>
+    match op with
+    | .scan _ sk skey _ _ =>
+      let sets := match sk with
+        | .first => seekFirstSetsGen
+        | .last => seekLastSetsGen
+        | _ => seekSetsGen
+      let st' := { st with cgen := if sets then m.gen else st.cgen }
+      let step : Bool := match sk, st.k with
+        | .ge, some k => seekFirstGreaterOrEqualStep (cmp skey k)
+        | .gt, some k => seekFirstGreaterStep (cmp skey k)
+        | .le, some k => seekLastLessOrEqualStep (cmp skey k)
+        | .lt, some k => seekLastLessStep (cmp skey k)
+        | _, _ => false
+      if step && seekStepCalls then .it .mGen { st' with mode := .step } else iterTop st'
+    | _ => .done .crash
+  | .dl x =>
+    match m.child x 0 with
+    | none => .it (.rdK x 0) st
+    | some _ => .it (.dl2 x) st
+  | .dl2 x =>
+    match m.child x 0 with
+    | some c => .it (.dl c) st
+    | none => .done .crash
+  | .dr x =>
+    match m.child x 0 with
+    | none => .it (.lastN x) st
+    | some _ => .it (.drn x) st
+  | .drn x => .it (.drc x (m.n x)) st
+  | .drc x n =>
+    match m.child x n.toNat with
+    | some c => .it (.dr c) st
+    | none => .done .crash
+  | .lastN x =>
+    .it (.rdK x (match st.mode with | .seek => seekLastIdx (m.n x) | _ => prevLeafLast (m.n x))) st
+  | .mGen =>
+    match st.curr with
+    | none => iterTop st
+    | some x => if st.cgen = m.gen then .it (.mLeaf x) st else .done .unmodelled
+  | .mLeaf x =>
+    match m.child x 0 with
+    | none =>
+      if fwd then .it (.mN x (st.i + 1)) st
+      else if prevLeafStay (st.i - 1) then .it (.rdK x (st.i - 1)) st else .it (.cPar x) st
+    | some _ =>
+      if fwd then .it (.mIN x) st
+      else if prevInnerDescend st.i then .it (.mCh x (prevChildIdx st.i)) st else .it (.cPar x) st
+  | .mN x i => if nextLeafStay i (m.n x) then .it (.rdK x i) st else .it (.cPar x) st
+  | .mIN x => if nextInnerDescend st.i (m.n x) then .it (.mCh x (nextChildIdx st.i)) st else .it (.cPar x) st
+  | .mCh x j =>
+    match m.child x j.toNat with
+    | none => .done .crash
+    | some c => if fwd then .it (.dl c) st else .it (.dr c) st
+  | .cPar x =>
+    match m.parent x with
+    | none => iterTop { st with curr := none }
+    | some _ => .it (.cPar2 x) st
+  | .cPar2 x =>
+    match m.parent x with
+    | none => .done .crash
+    | some p => .it (.cIdx x p 0) st
+  | .cIdx x p j =>
+    if m.child p j = some x then .it (.cPar3 x j) st
+    else if ((j : Int) + 1 < childrenLen) then .it (.cIdx x p (j + 1)) st
+    else .it (.cPar3 x (-1)) st
+  | .cPar3 x idx =>
+    match m.parent x with
+    | none => .done .crash
+    | some p =>
+      if fwd then .it (.cN p (nextClimbIdx idx)) st
+      else if prevClimbStop (prevClimbIdx idx) then .it (.rdK p (prevClimbIdx idx)) st else .it (.cPar p) st
+  | .cN p i => if nextClimbStop i (m.n p) then .it (.rdK p i) st else .it (.cPar p) st
+  | .nGen =>
+    match st.curr with
+    | none => .it .fin st
+    | some _ =>
+      if st.cgen = m.gen then
+        match st.k with
+        | none => .done .crash
+        | some k => if iterStops (opFwd op) (hasPred op) (inRangeOf cmp op k) then .it .fin st else .it .nVal st
+      else .done .unmodelled
+  | .nVal =>
+    match st.curr, st.k with
+    | some x, some k =>
+      .it .mGen { st with out := st.out ++ [(k, m.val x st.i.toNat)], left := st.left - 1 }
+    | _, _ => .done .crash
+  | .fin => .it .fin st
+
 /-- the goroutine performs `accessOf pc` on the memory `m` -/
 def next (cmp : K → K → Int) (op : Op K V) (m : Mem K V) : PC K V → Mem K V × PC K V
   | .run [] cont rg r => (m, mk op [] cont rg r)
@@ -481,16 +823,7 @@ def next (cmp : K → K → Int) (op : Op K V) (m : Mem K V) : PC K V → Mem K 
     match m.key x j with
     | none => (m, .done .crash)
     | some k' => (m, if insertLess (cmp op.key k') then afterInsertIdx op x j else .itest x (j + 1))
-  | .lostGen x i =>
-    match op with
-    | .iter _ _ cgen _ => (m, if cgen = m.gen then .itVal x i else .lostN x i)
-    | _ => (m, .done .crash)
-  | .lostN x i => (m, if (i : Int) ≥ m.n x then .done .unmodelled else .lostKey x i)
-  | .lostKey x i =>
-    match m.key x i with
-    | none => (m, .done .crash)
-    | some k' => (m, if cmp op.key k' = 0 then .itVal x i else .done .unmodelled)
-  | .itVal x i => (m, .done (.val (m.val x i)))
+  | .it ph st => (m, itNext cmp op m ph st)
   | .done r => (m, .done r)
 
 /-! ## interleaving semantics -/
